@@ -291,6 +291,15 @@ pub fn run(cfg: &Cfg, rep: &mut Report) {
             r.nontrivial(format!("ext-inst:{}:{}", set_name, if table.iter().any(|e| e.opcode == num) { "known" } else { "unknown" }));
         }
     });
+    // ---- boundary-value modules
+    run_stage(cfg, rep, "scale", cfg.n(crate::scale::N_VARIANTS * 12, crate::scale::N_VARIANTS * 300), |idx, rng, r| {
+        let (label, insts) = crate::scale::scale_module(rng, idx % crate::scale::N_VARIANTS);
+        let (words, _m, _s) = crate::genmod::encode_module(0x0001_0600, 0, 1 << 22, &insts, None);
+        let rp = || crate::util::replay_ref(cfg, "scale", idx).set("label", label.clone());
+        if exercise(&words_to_bytes(&words), r, &rp, &label, false) {
+            r.nontrivial(format!("scale:{}", label));
+        }
+    });
     // ---- mutants
     let n = if miri { 160 } else { cfg.n(150_000, 16_000_000) };
     run_stage(cfg, rep, "mutants", n, |idx, rng, r| {
